@@ -56,6 +56,7 @@ class Check(object):
         self.undecided = []
         self.assumptions = []
         self.observations = []
+        self.open_list = []
 
     # -------------------------------------------------------------- recording
     def rule(self, name, text):
@@ -86,6 +87,13 @@ class Check(object):
     def undecided_(self, key, msg, detail=None):
         """fail closed: the analysis could not decide"""
         self.fail("UNDECIDED/" + key, "UNDECIDED: " + msg, detail)
+
+    def open_(self, key, msg):
+        """an obligation the analysis could neither discharge nor refute, for value-level comparisons whose
+        decidability is heuristic: recorded (evidence, OPEN line) but not an alarm"""
+        self.obligations += 1
+        if len(self.open_list) < 200:
+            self.open_list.append((key, msg))
 
     def floor(self, name, minimum):
         """instance-count floor: a rule matching fewer sites than counted by hand went blind"""
@@ -137,6 +145,7 @@ class Check(object):
             "samples": [_jsonable(s) for s in self.samples] or ["(none)"],
             "known_findings_reported": [k for (k, _) in kf],
             "observations": self.observations,
+            "open_obligations": ["%s: %s" % (k, m) for (k, m) in self.open_list],
         }
         if level == "proof" and self.discharged != self.obligations:
             level = "other"
@@ -157,6 +166,8 @@ class Check(object):
         os.makedirs(os.path.join(VERIF, "evidence"), exist_ok=True)
         with open(os.path.join(VERIF, "evidence", "%s.json" % self.pid), "w") as fh:
             json.dump(ev, fh, indent=1)
+        for (k, m) in self.open_list[:20]:
+            out.append("OPEN: property=%s %s %s" % (self.pid, k, m))
         for line in out:
             print(line)
         print("[%s] tier=%s obligations=%d discharged=%d known=%d new=%d wall=%.1fs" % (
